@@ -35,6 +35,8 @@ RULE = ("deterministic corpus (0/1/100/101/250-event buckets across peewee's 100
 ERR = {"KeyError": 4, "ValueError": 5, "IndexError": 6, "AttributeError": 7, "TypeError": 8, "IntegrityError": 9}
 SEC = 1_000_000
 PY = sys.executable
+REPLAY_HINT = ("cd /verif && PYTHONPATH=$VERIF_REPO:/verif VERIF_REPO=${VERIF_REPO:-/repo} /venv/bin/python -m harness.c14 replay "
+               "<this file>   (re-creates the legacy store of 'case', constructs SqliteStorage, prints the violations)")
 
 
 # ---------------------------------------------------------------------------
@@ -618,8 +620,7 @@ def evaluate(ck, cases, runs, have_driver, record=True):
             ck.failing_input(sig, f"[{c['kind']}, testing={c['new_testing']}] {text}",
                              {"case": c, "listing_before": r["listing_before"], "observed": text,
                               "legacy_dump": [s["dump"] for s in r["built"]][:1] if n_events < 30 else "(large)",
-                              "new_buckets": m.get("buckets"), "rerun": "write the 'case' object to a file F and run: "
-                              "PYTHONPATH=$VERIF_REPO:/verif /venv/bin/python -m harness.c14 replay F"})
+                              "new_buckets": m.get("buckets"), "rerun": REPLAY_HINT})
         if mo is not None:
             io = impl_outcome(c, r, lab, u)
             if mo == [-999]:
@@ -670,7 +671,10 @@ def shrink_case(case, tmp):
 
 def replay(path):
     case = json.load(open(path))
-    case = case.get("replay", case).get("case", case) if "kind" not in case else case
+    if "property" in case and "replay" in case:          # a replays/C14/<hash>.json written by the check
+        case = case["replay"]
+    if "case" in case:
+        case = case["case"]
     tmp = tempfile.mkdtemp(prefix="awverif-c14-")
     try:
         runs = run_cases([case], tmp, procs=1)
@@ -723,8 +727,7 @@ def main(argv=None):
                                           "legacy_dump": [s["dump"] for s in runs[0]["built"]],
                                           "new_buckets": runs[0]["mig"].get("buckets"),
                                           "new_events": runs[0]["mig"].get("events"),
-                                          "rerun": "write the 'case' object to a file F and run: "
-                                                   "PYTHONPATH=$VERIF_REPO:/verif /venv/bin/python -m harness.c14 replay F"}))
+                                          "rerun": REPLAY_HINT}))
         except Exception as ex:  # noqa: BLE001 -- shrinking is best effort
             ck.log.append(f"shrink failed: {ex}")
     run_name_stream(ck, tmp, have_driver)
